@@ -18,7 +18,7 @@ PYTHONPATH="$WT" timeout 300 /venv/bin/python demo_seed.py >"$WT/patched.out" 2>
 BASE=$(/tmp/wt/run_baseline.sh "$WT" | tail -1)
 echo "$ID-$K: clean_exit=$CLEAN patched_exit=$PATCHED compile=$COMP baseline=${BASE:0:60}"
 if [ "$CLEAN" = 0 ] && [ "$PATCHED" != 0 ] && [ "$COMP" = 0 ] && [[ "$BASE" == BASELINE-OK* ]]; then
-  D=/verif/seeded/$ID-$K; mkdir -p "$D"
+  D=/verif/seeded/${SEEDNAME:-$ID-$K}; mkdir -p "$D"
   git diff -- malt > "$D/patch.diff"
   cp "$SRC/demo.py" "$D/demo.py"; cp "$SRC/notes.md" "$D/notes.md" 2>/dev/null
   for f in "$SRC"/*; do b=$(basename "$f"); case "$b" in patch.diff|demo.py|notes.md|scratch) ;; *) cp -r "$f" "$D/$b";; esac; done
